@@ -56,71 +56,140 @@ func main() {
 	}
 	gateSeen := false
 
-	for bi, beh := range all {
-		ctrl, err := holdopen.NewController(nil, le)
-		if err != nil {
-			vio.Fatal("%v", err)
-		}
-		peerA := vio.PeerID("holdopen/a")
-		inst := fakes.NewInstance(link.NewEstablishLinkWithPeer("", peerA))
-		if _, err := ctrl.HandleDirective(context.Background(), inst); err != nil {
-			vio.Fatal("HandleDirective: %v", err)
-		}
-		hs := inst.Handlers()
-		if len(hs) != 1 {
-			vio.Fatal("expected one reference handler, got %d", len(hs))
-		}
-		h := hs[0]
-		vals := map[int]directive.AttachedValue{}
-		out.Emit(map[string]any{"e": "reset", "b": bi})
-		settle := func() {
-			// everything not parked at the gate must be finished (async Release goroutines, callbacks)
-			if err := quiesce.Wait(watch, []string{"main.main.func"}, 10*time.Second, nil); err != nil {
+	var inAdd atomic.Int64
+	addTokens := make(chan struct{})
+	bi := -1
+	for _, beh := range all {
+		for _, split := range []bool{false, true} {
+			bi++
+			ctrl, err := holdopen.NewController(nil, le)
+			if err != nil {
 				vio.Fatal("%v", err)
 			}
-		}
-		checkpoint := func() {
-			settle()
-			out.Emit(map[string]any{"e": "q", "held": inst.StrongHeld(), "parked": parked.Load()})
-		}
-		for _, s := range beh {
-			switch s.A {
-			case "added":
-				v := directive.NewAttachedValue(uint32(s.V), link.MountedLink(&fakes.MountedLink{UUID: uint64(s.V), Local: vio.PeerID("holdopen/l"), Remote: peerA}))
-				vals[s.V] = v
-				h.HandleValueAdded(inst, v)
-				settle() // a spawned acquisition goroutine is now parked at the gate
-				if parked.Load() > 0 {
-					gateSeen = true
+			peerA := vio.PeerID("holdopen/a")
+			inst := fakes.NewInstance(link.NewEstablishLinkWithPeer("", peerA))
+			if split {
+				// second gate, inside the strong AddReference call: lets the driver try the next callback while the
+				// acquisition is in the middle of taking the reference (it only gets through if the code does not hold its lock)
+				inst.StrongGate = func() {
+					inAdd.Add(1)
+					<-addTokens
+					inAdd.Add(-1)
 				}
-				out.Emit(map[string]any{"e": "added", "v": s.V})
-			case "removed":
-				h.HandleValueRemoved(inst, vals[s.V])
-				out.Emit(map[string]any{"e": "removed", "v": s.V})
-			case "acq":
-				if parked.Load() == 0 {
-					continue // nothing parked: the real code did not spawn (or the gate is missing)
+			}
+			if _, err := ctrl.HandleDirective(context.Background(), inst); err != nil {
+				vio.Fatal("HandleDirective: %v", err)
+			}
+			hs := inst.Handlers()
+			if len(hs) != 1 {
+				vio.Fatal("expected one reference handler, got %d", len(hs))
+			}
+			h := hs[0]
+			vals := map[int]directive.AttachedValue{}
+			out.Emit(map[string]any{"e": "reset", "b": bi, "split": split})
+			settle := func() {
+				// everything not parked at the gate must be finished (async Release goroutines, callbacks)
+				if err := quiesce.Wait(watch, []string{"main.main.func"}, 10*time.Second, nil); err != nil {
+					vio.Fatal("%v", err)
 				}
+			}
+			checkpoint := func() {
+				settle()
+				out.Emit(map[string]any{"e": "q", "held": inst.StrongHeld(), "parked": parked.Load()})
+			}
+			skip := -1
+			doStep := func(s step) {
+				switch s.A {
+				case "added":
+					v := directive.NewAttachedValue(uint32(s.V), link.MountedLink(&fakes.MountedLink{UUID: uint64(s.V), Local: vio.PeerID("holdopen/l"), Remote: peerA}))
+					vals[s.V] = v
+					h.HandleValueAdded(inst, v)
+				case "removed":
+					h.HandleValueRemoved(inst, vals[s.V])
+				}
+			}
+			for si, s := range beh {
+				if si == skip {
+					continue
+				}
+				if split && s.A == "acq" && parked.Load() > 0 {
+					before := parked.Load()
+					tokens <- struct{}{}
+					for parked.Load() >= before {
+						time.Sleep(10 * time.Microsecond)
+					}
+					// either the goroutine finishes without taking a reference or it is now inside AddReference
+					if err := quiesce.Wait(watch, []string{"main.main.func"}, 10*time.Second, nil); err != nil {
+						vio.Fatal("%v", err)
+					}
+					if inAdd.Load() > 0 {
+						overtook := false
+						if si+1 < len(beh) && beh[si+1].A != "acq" {
+							done := make(chan struct{})
+							nx := beh[si+1]
+							go func() { doStep(nx); close(done) }()
+							select {
+							case <-done: // the callback ran in the middle of the acquisition
+								overtook = true
+								out.Emit(map[string]any{"e": nx.A, "v": nx.V})
+							case <-time.After(3 * time.Millisecond):
+							}
+							addTokens <- struct{}{}
+							<-done
+							out.Emit(map[string]any{"e": "acq"})
+							if !overtook {
+								out.Emit(map[string]any{"e": nx.A, "v": nx.V})
+							}
+							skip = si + 1
+						} else {
+							addTokens <- struct{}{}
+							out.Emit(map[string]any{"e": "acq"})
+						}
+					} else {
+						out.Emit(map[string]any{"e": "acq"})
+					}
+					checkpoint()
+					continue
+				}
+				switch s.A {
+				case "added":
+					v := directive.NewAttachedValue(uint32(s.V), link.MountedLink(&fakes.MountedLink{UUID: uint64(s.V), Local: vio.PeerID("holdopen/l"), Remote: peerA}))
+					vals[s.V] = v
+					h.HandleValueAdded(inst, v)
+					settle() // a spawned acquisition goroutine is now parked at the gate
+					if parked.Load() > 0 {
+						gateSeen = true
+					}
+					out.Emit(map[string]any{"e": "added", "v": s.V})
+				case "removed":
+					h.HandleValueRemoved(inst, vals[s.V])
+					out.Emit(map[string]any{"e": "removed", "v": s.V})
+				case "acq":
+					if parked.Load() == 0 {
+						continue // nothing parked: the real code did not spawn (or the gate is missing)
+					}
+					before := parked.Load()
+					tokens <- struct{}{}
+					for parked.Load() >= before {
+						time.Sleep(10 * time.Microsecond)
+					}
+					out.Emit(map[string]any{"e": "acq"})
+				}
+				checkpoint()
+			}
+			// drain
+			inst.StrongGate = nil
+			for parked.Load() > 0 {
 				before := parked.Load()
 				tokens <- struct{}{}
 				for parked.Load() >= before {
 					time.Sleep(10 * time.Microsecond)
 				}
-				out.Emit(map[string]any{"e": "acq"})
 			}
-			checkpoint()
+			settle()
+			h.HandleInstanceDisposed(inst)
+			settle()
 		}
-		// drain
-		for parked.Load() > 0 {
-			before := parked.Load()
-			tokens <- struct{}{}
-			for parked.Load() >= before {
-				time.Sleep(10 * time.Microsecond)
-			}
-		}
-		settle()
-		h.HandleInstanceDisposed(inst)
-		settle()
 	}
 	out.Emit(map[string]any{"e": "reset", "b": -1, "gate_seen": gateSeen})
 	out.Close()
